@@ -4,6 +4,14 @@ seedtest.sh (run-*.log), and prints the detection table (markdown)."""
 import json, os, re, sys, glob
 logdir = sys.argv[1]
 rows = []
+# baseline: the checks as they were before any seeded change was looked at (verif commit f5b25c4)
+baseline = {}
+bf = os.path.join(logdir, 'oldqueue.log')
+if os.path.exists(bf):
+    for line in open(bf, errors='replace'):
+        mo = re.match(r'seed=(C\d\d-m\d) check=(\S+) rc=(\d+)', line)
+        if mo:
+            baseline.setdefault(mo.group(1), []).append({'check': mo.group(2), 'exit': int(mo.group(3)), 'detected': mo.group(3) == '1'})
 for d in sorted(glob.glob('/verif/seeded/*-m*')):
     name = os.path.basename(d); pid, m = name.split('-')
     readme = open(os.path.join(d, 'README.md')).read() if os.path.exists(os.path.join(d, 'README.md')) else ''
@@ -38,15 +46,19 @@ for d in sorted(glob.glob('/verif/seeded/*-m*')):
                       'meaning': 'applied to a scratch copy of /repo HEAD: go build ./... and go test ./... pass in both modules (786-test baseline included)'},
         'checks_run': [{'command': f'/verif/seedtest.sh seeded/{name}/patch.diff {c["check"]}', **c} for c in checks],
         'detected_by': sorted({c['check'] for c in checks if c['detected']}),
+        'baseline_before_strengthening': {'verif_commit': 'f5b25c4', 'runs': baseline.get(name, []),
+                                          'detected_by': sorted({b['check'] for b in baseline.get(name, []) if b['detected']})},
     }
     json.dump(meta, open(os.path.join(d, 'meta.json'), 'w'), indent=1, ensure_ascii=False)
     rows.append(meta)
-print('| seed | change | validated | detected by (quick) | first signature |')
-print('|---|---|---|---|---|')
+print('| seed | change | suite | before (f5b25c4) | now, quick tier | first signature |')
+print('|---|---|---|---|---|---|')
 for r in rows:
     det = ', '.join(r['detected_by']) or '**missed**'
     sig = next((s for c in r['checks_run'] if c['detected'] for s in c['signatures']), '')
-    missed = [c['check'] for c in r['checks_run'] if not c['detected']]
+    missed = sorted({c['check'] for c in r['checks_run'] if not c['detected']} - set(r['detected_by']))
     if missed and r['detected_by']:
         det += ' (not: ' + ', '.join(missed) + ')'
-    print(f"| {r['seed']} | {r['change'][:110]} | {r['validated']['result']} | {det} | `{sig[:90]}` |")
+    b = r['baseline_before_strengthening']
+    before = ', '.join(b['detected_by']) or ('missed' if b['runs'] else '-')
+    print(f"| {r['seed']} | {r['change'][:110]} | {r['validated']['result']} | {before} | {det} | `{sig[:90]}` |")
